@@ -16,16 +16,40 @@ MC_Few == { Cl("pL", "pL", "zero"),      Cl("nL", "nL", "small"),
 (* third series of the replayed 3-variable instance *)
 MC_Few3 == { Cl("nL", "nL", "large"), Cl("pL", "pL", "small"), Cl("nL", "nL", "rel_small"), ClLeaves("pe", "ne", "large") }
 
-MC_GridThree    == << AllClasses, MC_Few, MC_Few3 >>
-MC_GridQuick    == << AllClasses, MC_Few >>
-MC_GridFull2    == << AllClasses, AllClasses >>
-MC_GridFull3    == << AllClasses, AllClasses, AllClasses >>
-MC_N12 == {1, 2}
-MC_N2  == {2}
-MC_N3  == {3}
+(* names: plain ones, and a family in which one name occurs inside another *)
+X1 == << "x", "1" >>
+X2 == << "x", "2" >>
+X3 == << "x", "3" >>
+Y  == << "y" >>
+YT == << "y", "_", "t", "o", "t", "a", "l" >>      \* y_total: contains y; LAG_y_total contains LAG_y
+MY == << "m", "y" >>                               \* my: ends in y
+Sch(id, nms, grid, excls) == [id |-> id, names |-> nms, grid |-> grid, excls |-> excls]
+AtMostOne(nms) == {{}} \cup { {nms[i]} : i \in 1..Len(nms) }
+
+MC_SchemesQuick == {
+    Sch(1, << X1 >>,     << AllClasses >>,         AtMostOne(<< X1 >>)),
+    Sch(2, << X1, X2 >>, << AllClasses, MC_Few >>, AtMostOne(<< X1, X2 >>)),
+    \* excluded names that contain / are contained in the name of a judged series
+    Sch(3, << Y, YT >>,  << MC_Few, MC_Few >>,     { {YT}, {Y} }),
+    Sch(4, << YT, Y >>,  << MC_Few3, MC_Few >>,    { {YT} }),
+    Sch(5, << Y >>,      << AllClasses >>,         { {YT}, {MY} }) }        \* the excluded name is no series at all
+
+MC_SchemesThorough == {
+    Sch(1, << X1, X2 >>, << AllClasses, AllClasses >>, AtMostOne(<< X1, X2 >>)),
+    Sch(2, << Y, YT >>,  << AllClasses, MC_Few >>,     { {YT}, {Y}, {Y, YT} }),
+    Sch(3, << YT, Y >>,  << MC_Few, AllClasses >>,     { {YT}, {MY} }) }
+
+MC_SchemesThree == {
+    Sch(1, << X1, X2, X3 >>, << AllClasses, MC_Few, MC_Few3 >>, AtMostOne(<< X1, X2, X3 >>)),
+    Sch(2, << Y, X1, YT >>,  << MC_Few, MC_Few3, MC_Few3 >>,    { {YT}, {Y}, {X1, YT} }) }
+
+MC_SchemesFull3 == {
+    Sch(1, << X1, X2, X3 >>, << AllClasses, AllClasses, AllClasses >>, AtMostOne(<< X1, X2, X3 >>)),
+    Sch(2, << Y, X1, YT >>,  << AllClasses, AllClasses, MC_Few >>,     { {YT} }) }
 
 (* every maximal behaviour is printed once, as JSON, for the replay driver *)
 Emit == Terminal =>
-          PrintT(<< "BEH", ToJson([n |-> n, excluded |-> excluded, wf |-> wf, runres |-> runres,
+          PrintT(<< "BEH", ToJson([n |-> n, names |-> names, option |-> option, excluded |-> excluded,
+                                   sid |-> sid, wf |-> wf, runres |-> runres,
                                    cls |-> cls, phase |-> phase, exc |-> exc]) >>)
 =============================================================================
